@@ -20,7 +20,7 @@ import vlib, travrun, travcmp
 from vlib import Inconclusive
 
 WORKERS = 8
-TAGGED_WORLDS = {"hyphen": ("E(ids)", "row id contains '-'")}
+TAGGED_WORLDS = {"hyphen": ("E(ids)", "row id contains '-'"), "vol-nested": ("", "nested prefixes, 150 lookups")}
 
 
 def trav_text():
@@ -44,9 +44,9 @@ def plans(ctx):
         ps = [("hand-lead2", 2, "hand", "label", None, None, 0, None), ("hand-all1", 1, "hand", "all", None, None, 4, None),
               ("gen-lead1", 1, "gen", "label", None, None, 0, None)]
     else:
-        ps = [("hand-all2", 2, "hand", "all", None, None, 100, None), ("hand-lead3", 3, "hand", "label2", None, None, 30, None),
-              ("gen-lead2", 2, "gen", "label", None, None, 10, 20000), ("gen-all1", 1, "gen", "all", None, None, 10, 12000),
-              ("hand-sim", 6, "hand", "all", "num=1500", 7, 10, None)]
+        ps = [("hand-all2", 2, "hand", "all", None, None, 40, None), ("hand-lead3", 3, "hand", "label2", None, None, 10, None),
+              ("gen-lead2", 2, "gen", "label", None, None, 5, 15000), ("gen-all1", 1, "gen", "all", None, None, 5, 12000),
+              ("hand-sim", 6, "hand", "all", "num=1500", 7, 5, 30000), ("vol", 1, "vol", "all", None, None, 0, None)]
     only = os.environ.get("VERIF_C15_PLANS")   # debugging aid: comma-separated plan labels
     return [p for p in ps if not only or p[0] in only.split(",")]
 
@@ -158,25 +158,23 @@ def run_harness(ctx, tag, worlds, graphs, reqs, jobs=10, timeout=1500, req_timeo
     return outs
 
 
-def run_states(ctx, tag, worlds, graphs, reqs):
+def run_states(ctx, tag, worlds, graphs, reqs, req_timeout="60s", retry_timeout="120s"):
     """light requests on many workers; distinct()-bearing ones (a temporary Badger store per run) on few with a long
-    deadline.  A request that hangs is re-run alone (twice): only a hang that persists is an observation."""
+    deadline.  A request that hangs is run again with a longer deadline: only a hang that persists is an observation."""
     heavy = [r for r in reqs if "prog" in r and any(st["op"] == "distinct" for st in r["prog"])]
     hid = {r["i"] for r in heavy}
     light = [r for r in reqs if r["i"] not in hid]
     outs = {}
     if light:
-        outs.update(run_harness(ctx, tag + "_l", worlds, graphs, light))
+        outs.update(run_harness(ctx, tag + "_l", worlds, graphs, light, req_timeout=req_timeout))
     if heavy:
         outs.update(run_harness(ctx, tag + "_h", worlds, graphs, heavy, jobs=3, req_timeout="150s"))
     by_i = {r["i"]: r for r in reqs}
-    for attempt in (1, 2):
-        hung = [i for i, o in outs.items() if "hang" in o]
-        if not hung:
-            break
-        if len(hung) > 40:
-            raise Inconclusive("%d requests hang (%s): machine overloaded or a systematic hang; first: %s" % (len(hung), tag, json.dumps(by_i[hung[0]])[:300]))
-        again = run_harness(ctx, "%s_retry%d" % (tag, attempt), worlds, graphs, [by_i[i] for i in hung], jobs=2, req_timeout="200s")
+    hung = [i for i, o in outs.items() if "hang" in o]
+    if len(hung) > 40:
+        raise Inconclusive("%d requests hang (%s): machine overloaded or a systematic hang; first: %s" % (len(hung), tag, json.dumps(by_i[hung[0]])[:300]))
+    if hung:
+        again = run_harness(ctx, tag + "_retry", worlds, graphs, [by_i[i] for i in hung], jobs=4, req_timeout=retry_timeout)
         for i in hung:
             if "hang" not in again[i]:
                 outs[i] = again[i]
@@ -285,12 +283,11 @@ def traversal_part(ctx, trav, label, maxlen, family, lead, sim, depth, cap, maxs
         raise Inconclusive("TLC emitted no states for %s" % label)
     states = thin_heavy(ctx, states, cap, label)
     if maxstates and len(states) > maxstates:
-        # keep every program of up to 2 statements, a seeded sample of the longer ones (with their prefixes' verdicts
-        # still available for attribution where sampled)
-        short = [s for s in states if len(s["prog"]) <= 2]
-        rest = [s for s in states if len(s["prog"]) > 2]
+        # keep every start, a seeded sample of the longer programs
+        short = [s for s in states if len(s["prog"]) <= 1]
+        rest = [s for s in states if len(s["prog"]) > 1]
         ctx.rng.shuffle(rest)
-        ctx.notes.append("%s: %d of %d states replayed (seeded sample of the programs longer than 2 statements)" % (label, maxstates, len(states)))
+        ctx.notes.append("%s: %d of %d states replayed (seeded sample)" % (label, maxstates, len(states)))
         states = short + rest[: max(0, maxstates - len(short))]
     selftest = os.environ.get("VERIF_C15_SELFTEST")    # binding self-tests (AGENT_GUIDE rule 7a), never set in normal runs
     if selftest == "corrupt-world":                     # the driver is given another mapping than the spec describes
@@ -309,13 +306,13 @@ def traversal_part(ctx, trav, label, maxlen, family, lead, sim, depth, cap, maxs
             else:
                 d["gprog"] = gp
         reqs.append(d)
-    outs = run_states(ctx, label, worlds, graphs, reqs)
+    outs = run_states(ctx, label, worlds, graphs, reqs, **(dict(req_timeout="30s", retry_timeout="45s") if family == "vol" else {}))
     if selftest == "corrupt-real":                      # one recorded field of one real outcome is falsified
         o = next(outs[i] for i, s in enumerate(states) if s["status"] == "ok" and (outs[i].get("gripper") or {}).get("rows")
                  and outs[i]["gripper"]["rows"][0].get("k") == "v")
         o["gripper"]["rows"][0]["label"] += "-corrupted"
     ctx.log("%s: replayed %d states on gripper and kvgraph (%d named a parallel edge: kvgraph only)" % (label, len(states), skipped))
-    bad, shared, kvonly = {}, 0, 0
+    bad, shared, kvonly, ex_shared, ex_kv = {}, 0, 0, None, None
     for i, s in enumerate(states):
         o = outs[i]
         m = maps[s["g"] - 1]
@@ -335,14 +332,16 @@ def traversal_part(ctx, trav, label, maxlen, family, lead, sim, depth, cap, maxs
             if rk and s["status"] == "ok" and bag(o.get("gripper"), m["real"]) == bag(o.get("kv"), m["spec"]) \
                     and not (o.get("gripper") or {}).get("err"):
                 shared += 1   # both real backends agree with one another: not this property's subject
+                ex_shared = ex_shared or "%s on '%s': %s" % (start_shape(s["prog"]), worlds[s["g"] - 1]["name"], rg[0][0])
                 continue
             bad[i] = rg
         elif rk:
             kvonly += 1
+            ex_kv = ex_kv or "%s on '%s': %s" % (start_shape(s["prog"]), worlds[s["g"] - 1]["name"], rk[0][0])
     if shared:
-        ctx.notes.append("%s: %d states where gripper and kvgraph agree with one another but not with Traversal.tla (engine behaviour, C01/C02)" % (label, shared))
+        ctx.notes.append("%s: %d states where gripper and kvgraph agree with one another but not with Traversal.tla (engine behaviour, C01/C02), e.g. %s" % (label, shared, ex_shared))
     if kvonly:
-        ctx.notes.append("%s: %d states where only the kvgraph cross-check deviates from Traversal.tla (kvgraph behaviour, C01/C02/C03)" % (label, kvonly))
+        ctx.notes.append("%s: %d states where only the kvgraph cross-check deviates from Traversal.tla (kvgraph behaviour, C01/C02/C03), e.g. %s" % (label, kvonly, ex_kv))
     mini = travrun.minimal(states, bad)
     mini, outs = reattribute(ctx, label, worlds, graphs, states, reqs, maps, mini, outs)
     for i, r in sorted(mini.items()):
@@ -351,6 +350,8 @@ def traversal_part(ctx, trav, label, maxlen, family, lead, sim, depth, cap, maxs
         for kind, detail in r:
             sig = "gripper %s at %s" % (kind if kind not in ("crash", "hang") else kind + " " + str(detail), start_shape(s["prog"]))
             if wname in TAGGED_WORLDS and start_shape(s["prog"]).startswith(TAGGED_WORLDS[wname][0]):
+                if kind == "hang":
+                    sig = "gripper hang"
                 sig += " [%s]" % TAGGED_WORLDS[wname][1]   # the one feature this world was built around: keep it apart
             ctx.diverge(sig, "%s %s on world '%s'" % (kind, detail, wname),
                         dict(world=worlds[s["g"] - 1], graph=graphs[s["g"] - 1], state=s, gripper_program=reqs[i].get("gprog", s["prog"]),
